@@ -410,6 +410,32 @@ for _u in PROPS["C05"]["units"]:
     if _u.get("group") == "scalars":
         _u["assumptions"] = [a.replace("char contents beyond the empty string (str::chars / count under CBMC ran > 20 min per string) are NOT decided here", "char contents beyond the empty string are covered by the bounded native unit scalar-text only (str::chars / count under CBMC ran > 20 min per string)") for a in _u["assumptions"]]
 
+# after the eighth batch of seeded changes
+for _p in ("C01", "C02", "C03", "C04"):
+    _more(_p, "enum", "derive-core-enum", "harnesses", ["derive_tagunits_2", "derive_defmiss_2"])
+_more("C10", "enum", "derive-enum-enum", "harnesses", ["derive_tagunits_2"])
+_more("C12", "enum", "derive-total-enum", "harnesses", ["derive_tagunits_2", "derive_defmiss_2"])
+_more("C07", "enum", "derive-keys-enum", "harnesses", ["derive_defmiss_2"])
+_more("C08", "enum", "derive-missing-enum", "harnesses", ["derive_defmiss_2"])
+_more("C15", "enum", "derive-order-enum", "harnesses", ["order_fns5_3"])
+PROPS["C10"]["text"] += " An internally tagged enum whose variants are ALL unit variants (TagUnits: tag before / after the other member, known / unknown / wrongly-cased / non-string tag) is in the bounded catalogue."
+PROPS["C08"]["text"] += " `default` together with `missing_field_error` on one field (DefMiss: the default wins, the function is never called), and fields whose deserr attribute follows a multi-segment tool attribute (`#[rustfmt::skip]`) or `#[allow(..)]`, are in the bounded catalogue."
+PROPS["C07"]["text"] += " Fields whose deserr attribute follows a multi-segment tool attribute (`#[rustfmt::skip]`) or `#[allow(..)]` (DefMiss) are in the bounded catalogue."
+PROPS["C15"]["text"] += " The struct with function attributes (Fns5: missing_field_error = f, deny_unknown_fields = f, map) in all six orders of three members (native execution only)."
+# scalars: C01 / C04 obligations of the complete scalar harnesses (ok_only_if_nothing_reported, exactly_one_report_at_the_given_location, actual_is_the_value_found)
+for _p in ("C01", "C04"):
+    PROPS[_p]["units"] = PROPS[_p]["units"] + [dict(PROPS["C05"]["units"][0])]
+    PROPS[_p]["text"] += " Scalars (24 integer / NonZero types, floats, bool, unit, kind part of String / char): the complete loop-free Kani harnesses of C05 carry this property's obligations too (Ok only when the error type was never called; a failure is exactly one report at the given location, with the value found)."
+
+# after the ninth batch of seeded changes (size- and type-dependent slips)
+for _p in ("C01", "C02", "C03", "C04", "C06", "C12"):
+    _more(_p, "enum", "containers-enum", "harnesses", ["cont_zst"]) if any(u.get("group") == "containers-enum" for u in PROPS[_p]["units"]) else None
+_more("C13", "enum", "json-documents", "harnesses", ["json_large_documents"])
+PROPS["C06"]["text"] += " Zero-sized element types (`()`, PhantomData) in Vec / HashSet / BTreeSet (bounded, native: 0..=3 elements, fine or of a wrong kind, every answer sequence): the length is the payload's, faults inside the elements are reported."
+PROPS["C13"]["text"] += " LARGE documents (bounded, native): 1 / 126..129 / 300 / 1000 / 4097 containers side by side in six shapes (records in a list, members of an object, mixed empty and non-empty containers, lists in a list, depth-4 records) and chains up to 300 deep are rebuilt through both routes -- an implementation that counts, caps or budgets containers cannot hide behind the small exhaustive domain."
+PROPS["C14"]["text"] += " The received value of an IncorrectValueKind report includes strings that JSON text must escape (quotes, backslash, control characters, DEL, combining / zero-width / astral characters): the JSON message quotes exactly serde_json's text of the value."
+PROPS["C16"]["text"] = PROPS["C16"]["text"].replace("79 hand-written derive inputs (9 valid controls, 70 poisoned", "84 hand-written derive inputs (10 valid controls, 74 poisoned")
+
 NOT_APPLICABLE = {
     "C20": "HTTP extractors are three-line async compositions of actix-web/axum extractors with deserr::deserialize; neither installed verifier can run or specify the frameworks (futures, pinning, runtime), so every obligation would be an assumed contract on actix/axum with nothing left to prove; the features are off by default and not compiled in the baseline.",
 }
